@@ -19,10 +19,15 @@ def run(ctx):
     disagreements = 0
     samples = []
     kinds = {}
+    canon_ids = prep.get("canonical_ids", set())
+    exact = {}          # encoding (hex) of a canonical value -> its abstraction: decoding must give back the value ITSELF
+    exact_checked = 0
     for f in T.iter_cases(prep["cases"]):
         if f[0] == "E":
             _, cid, tid, g, impl, det, rt = f
             evals += 1
+            if cid in canon_ids and impl.startswith("ok:") and tid != "c":
+                exact.setdefault((tid, impl[3:]), g)
             name = "objects.MessageContainer" if tid == "c" else names.get(int(tid), tid)
             m = model.get(cid, "missing")
             ic = T.norm_class(impl)
@@ -55,6 +60,15 @@ def run(ctx):
             ic = T.norm_class(impl)
             if m == "FUEL":
                 raise C.BuildError("model ran out of fuel on case %s" % cid)
+            # exact round trip (C01_roundtrip_exact*): the encoding of a CANONICAL value decodes to that very value
+            if mode.startswith("n") and hints == "-" and (mode[1:], hx) in exact:
+                exact_checked += 1
+                want = "ok:" + exact[(mode[1:], hx)]
+                if ic != want:
+                    C.violation(ctx, "roundtrip-exact:%s:%s" % (names.get(int(mode[1:]), mode), hashlib.sha1(hx.encode()).hexdigest()[:8]),
+                                "Decode(Marshal(v)) of the canonical value %s gives %s" % (T.short(exact[(mode[1:], hx)]), T.short(ic)),
+                                {"kind": "D", "mode": mode, "hints": hints, "hex": hx, "expected": want, "got": ic,
+                                 "oracle": "C01_roundtrip_exact_named: a canonical value comes back unchanged"})
             if m != ic and (ic.startswith("ok") or m.startswith("ok")):
                 disagreements += 1
                 C.violation(ctx, "decode:%s:%s" % (mode, hashlib.sha1(hx.encode()).hexdigest()[:8]),
@@ -98,7 +112,9 @@ def run(ctx):
                  "kept (the slice as returned) and compared with its snapshot after each of the next 8 Marshal calls. "
                  "non-trivial = distinct values whose encoding succeeded",
          "samples": samples, "input_distribution": prep["stats"], "disagreements_checked": disagreements,
-         "values_by_theorem_domain": {"inside_wt (round-trip theorems apply)": prep.get("domain", {}).get("wt", 0),
+         "values_by_theorem_domain": {"inside_wt and canonical (exact round trip: decoded value = original)": prep.get("domain", {}).get("wt-canonical", 0),
+                                      "canonical values whose decode was compared with the original": exact_checked,
+                                      "inside_wt, not canonical (round trip up to norm)": prep.get("domain", {}).get("wt", 0),
                                       "outside_wt (compared by result class and bytes only)": prep.get("domain", {}).get("illtyped", 0),
                                       "msg_container (hand-written codec, correspondence only)": prep.get("domain", {}).get("c", 0),
                                       "not representable in the model (skipped)": prep.get("domain", {}).get("unsupported", 0)},
